@@ -40,6 +40,7 @@ def main():
     signal.alarm(limit)
     try:
         if a.replay:
+            ctx.replaying = True
             mod.replay(ctx, a.replay)
         else:
             mod.run(ctx)
